@@ -36,7 +36,8 @@ Pos1 == Some([lat |-> 1, lon |-> 2, bearing |-> None, odo |-> None, speed |-> So
 (* two trips, vehicles with id / label only / no descriptor, every way to associate them *)
 T1 == TDid(2)   T2 == TDid(1)      \* trip id tokens chosen so that t2 sorts before t1
 T1r == [TDid(2) EXCEPT !.route = Some(1)]          \* same id, different descriptor: a different trip
-Tnoid == [NoTD EXCEPT !.route = Some(1), !.dir = Some(1), !.st = Some([h |-> 11, m |-> 0, s |-> 30, ok |-> TRUE]), !.sd = Some([day |-> 1, ok |-> TRUE])]
+(* start date token 7 is a day whose local midnight does not exist in America/Santiago (one of the zones the merge pool is parsed in) *)
+Tnoid == [NoTD EXCEPT !.route = Some(1), !.dir = Some(1), !.st = Some([h |-> 11, m |-> 0, s |-> 30, ok |-> TRUE]), !.sd = Some([day |-> 7, ok |-> TRUE])]
 Tfreq == [NoTD EXCEPT !.id = Some(2), !.st = Some([h |-> 0, m |-> 0, s |-> 0, ok |-> TRUE])]  \* t1 at 00:00:00
 MergeShapes == <<
     TU(T1, None, <<Stu(Some(1), Some(1), Some(1), None)>>),                 \*  1 own entity of t1
@@ -59,7 +60,9 @@ MergeShapes == <<
     AL(3, <<[NoSel EXCEPT !.trip = Some(T1)], [NoSel EXCEPT !.trip = Some(T2)], [NoSel EXCEPT !.trip = Some(Tnoid)]>>),  \* 18 one alert naming three trips
     TU([NoTD EXCEPT !.id = Some(2), !.st = Some([h |-> 24, m |-> 10, s |-> 0, ok |-> TRUE])], None, <<Stu(Some(1), Some(1), Some(1), None)>>),   \* 19 t1 at 24:10:00
     TU([NoTD EXCEPT !.id = Some(2), !.st = Some([h |-> 24, m |-> 40, s |-> 0, ok |-> TRUE])], Some(VDid(3)), <<>>),                            \* 20 t1 at 24:40:00
-    VP(Some([NoVD EXCEPT !.id = Some(1), !.label = Some(1)]), None, Pos1, Some(2))                                                             \* 21 own entity of the vehicle (v1, label L1): not the vehicle v1
+    VP(Some([NoVD EXCEPT !.id = Some(1), !.label = Some(1)]), None, Pos1, Some(2)),                                                            \* 21 own entity of the vehicle (v1, label L1): not the vehicle v1
+    TU([TDid(2) EXCEPT !.sr = Some(3)], None, <<Stu(Some(1), Some(1), Some(1), None)>>),                                                       \* 22 t1, canceled: another trip than t1 (the relationship is part of the identifier)
+    AL(4, <<[NoSel EXCEPT !.trip = Some(T1)], [NoSel EXCEPT !.stop = Some(1)]>>)                                                               \* 23 an alert naming t1, after that trip update
 >>
 
 SeqOfSet(S) == SortSet(S, LAMBDA a, b : a < b)
